@@ -11,7 +11,8 @@ CHECKS = {
               "OutIsPrefix/AccountingExact/DoneExact and liveness. Bound to the code both ways: an edge cover of TLC's dumped "
               "state graph is replayed into the real generator (bytes, BytesIO, real file, scripted socket), and executions of "
               "the real generator on random/boundary/21 MB/mission streams are traced (hooks + instrumented sources) and "
-              "validated against the same actions by Trace_Framer."),
+              "validated against the same actions by Trace_Framer. Real OS file objects of ten flavours are compared with the validated "
+              "in-memory run; a 65 MB stream exercises repeated buffer trims."),
         note="Stream contents are abstracted to the window of the source (byte identity checked by slicing the input at the "
              "offsets the model emits). " + TRUSTED,
         technique="TLA+ state-machine spec + TLC exhaustive BFS; edge-cover replay (spec->code) and trace validation (code->spec)",
@@ -20,7 +21,9 @@ CHECKS = {
         text=("Same Framer.tla with fault inputs: every prefix of every small well-formed stream, all short garbage strings, "
               "closed sockets; TLC checks OnlyComplete/DoneExact/NoCrash and termination under weak fairness; the pinned "
               "tree's behaviour is kept as AsIs_* actions whose config must violate the invariants. Edge-cover replay with an "
-              "item budget (a hang is a verdict) and trace validation of random truncated/garbage sources."),
+              "item budget (a hang is a verdict) and trace validation of random truncated/garbage sources. Real OS file objects (incl. "
+              "read/write handles with pending or partly flushed writes, compressed files) and show_progress=True on every source kind "
+              "(empty, truncated, early close) are compared with the validated runs."),
         note="Termination of the real code is observed under an item budget per run, not proved. " + TRUSTED,
         technique="TLA+ state-machine spec + TLC (safety + liveness under WF); fault-point enumeration by model; trace validation",
         design="5 C10"),
@@ -36,7 +39,7 @@ CHECKS["C12"] = dict(
           "Half of the replayed histories run under options that change what is delivered but not the reassembly (parse_bad_pkts=False, "
           "a definition not recognising one APID with / without error reporting). Thorough tier: Apalache shows the invariants "
           "(strengthened by OpenDisjoint, Fresh, OpenAscending) inductive for histories of any length (Ind_Segments.tla), and TLC that "
-          "the annotated module refines Segments.tla."),
+          "the annotated module refines Segments.tla. A quarter of the replayed histories has later segments without user data."),
     note="Warnings are compared as per-history counts of the two warning kinds. " + TRUSTED,
     technique="TLA+ state-machine spec + TLC exhaustive histories; behaviour export (BFS + simulation) replayed into code; trace validation; Apalache inductive invariant (thorough)",
     design="5 C12")
@@ -55,7 +58,7 @@ CHECKS["C13"] = dict(
           "NothingBuiltWhenInvalid over all 2^16 values of each header word and over the boundary lattice {-1,min,mid,max,max+1}^6 "
           "x 9 data lengths. The lattice is exported and replayed on create_ccsds_packet, the accessors and the framer; the real "
           "functions are run on all 3 x 65536 word values (thorough; every 5th in quick), random field vectors and random framed "
-          "packets, each call logged and re-evaluated by Trace_Header."),
+          "packets, each call logged and re-evaluated by Trace_Header. Re-framing also goes through a file object read in pieces of 1..7 bytes."),
     note="Non-integer arguments (TypeError path) are outside the property. " + TRUSTED,
     technique="TLA+ spec of the header layout, TLC exhaustive per word + boundary lattice; replay and logged-call validation",
     design="5 C13")
@@ -66,7 +69,7 @@ CHECKS["C04"] = dict(
           "every pattern of integer widths 1..10 and all 65536 binary16 patterns in both byte orders and cross-checks the bit-level "
           "operators against plain arithmetic and the IEEE class table; boundary patterns of wide integers, binary32/64 and 1750A "
           "are exported too. Every exported row is decoded by the real parse_value at several bit offsets; random wide patterns "
-          "decoded by the real code are logged and re-evaluated by Trace_Numeric. A share of all cases uses encodings that also declare context calibrators none of which applies (still uncalibrated); one type object per layout decodes all its cases."),
+          "decoded by the real code are logged and re-evaluated by Trace_Numeric. A share of all cases uses encodings that also declare context calibrators none of which applies (still uncalibrated); one type object per layout decodes all its cases. Float encodings are also built with the tolerated legacy spellings IEEE-754 / MIL-1750A."),
     note="Byte order is claimed for whole-byte widths only; NaN payloads are not compared. " + TRUSTED,
     technique="TLA+ transcription of the decoders, TLC exhaustive small-width tables + replay; logged decodes re-evaluated by TLC",
     design="5 C04")
@@ -77,7 +80,7 @@ CHECKS["C06"] = dict(
           "spellings. TLC evaluates it on the exhaustive small space (relations x spellings x selectors x literals x boundary values "
           "incl. 0/False/negative/int-vs-float; every group shape up to the bound x all truth assignments; lookup orders) and on "
           "random trees, checks its own De Morgan duality on every boolean case, and compares with what the real classes returned "
-          "when built through constructors and through XML with explicit and omitted defaults. One evaluator object per (expression, route) evaluates all its environments in shuffled order (history independence; the history is part of a replay)."),
+          "when built through constructors and through XML with explicit and omitted defaults. One evaluator object per (expression, route) evaluates all its environments in shuffled order (history independence; the history is part of a replay). The enumerated comparisons are run again with every value and literal moved up by 2^53 / 2^63 / 2^64 on the real side (translation invariance); string values and literals with leading / trailing blanks are included."),
     note="Relations that are mathematically undefined (missing operand, literal not expressible in the operand's type, ordering of "
          "strings) accept any answer; values restricted to +-2^12 with dyadic fractions for exact 32-bit arithmetic. " + TRUSTED,
     technique="TLA+ transcription of the evaluation rules; TLC evaluates the exhaustive bounded case space and logged random cases against the real classes",
@@ -89,7 +92,7 @@ CHECKS["C08"] = dict(
           "CalibrationError otherwise, float result class, enumeration / boolean derivation from the raw value, time-type "
           "scale/offset, and raw_value retention. TLC evaluates it on the exhaustive small space (every knot, both end points, "
           "midpoints, outside; precedence and fall-through of <= 3 context calibrators; enum/bool over calibrated encodings) and on "
-          "random calibrator sets, and compares with the real ParameterType.parse_value built by constructors and from XML. One type object per (type, route) decodes all its cases in shuffled order (history independence)."),
+          "random calibrator sets, and compares with the real ParameterType.parse_value built by constructors and from XML. One type object per (type, route) decodes all its cases in shuffled order (history independence). 64-bit enumerations and zero-order splines are decoded with listed values / knots at 2^53, 2^63, 2^64 on the real side; polynomials with repeated exponents and an empty enumeration label are included."),
     note="Oracle domain is the exact-dyadic sub-domain (coefficients, knots with power-of-two spacing, raw values); general decimal "
          "coefficients are not decided. " + TRUSTED,
     technique="TLA+ transcription with exact rational arithmetic; TLC evaluates the exhaustive bounded case space and logged random cases against the real classes",
@@ -101,7 +104,7 @@ CHECKS["C07"] = dict(
           "for whole-buffer, termination-character (searched at code-unit boundaries) and leading-size delimiting, error outcomes and the "
           "cursor advance. TLC evaluates it on the enumerated small space (1..41-bit fields at offsets 0..7, reference values 0..5, three "
           "delimiters x three length specifications, 1- and 2-byte code units) and on random buffers up to 2 kB in every supported "
-          "encoding, and compares with the real parse_value built by constructors and from XML. One type object per (encoding, route) decodes all its cases in sequence, and looked-up lengths are decoded for every ordered pair of reference values on one object (history independence)."),
+          "encoding, and compares with the real parse_value built by constructors and from XML. One type object per (encoding, route) decodes all its cases in sequence, and looked-up lengths are decoded for every ordered pair of reference values on one object (history independence). Lookups include zero-valued entries and entries whose first comparison holds while a later one fails."),
     note="Character codecs applied to the selected bytes are trusted; zero-length strings, non-integral/negative lengths and over-reads "
          "are outside the claimed domain; plain UTF-16/32 with a byteOrder attribute are not generated. " + TRUSTED,
     technique="TLA+ transcription of length computation and delimiting; TLC evaluates the bounded case space and logged random cases against the real classes",
@@ -114,7 +117,7 @@ CHECKS["C05"] = dict(
           "overlapping criteria x ALL packets, checking CursorIsSum / PathOK / ChosenSatisfied at every step, and on hand-shaped "
           "structures with a full header root. Each case is decoded by the real library (definitions built by constructors and loaded "
           "from XML in three spellings) and compared at the end of the walk: items, order, values, header/user-data views, partial "
-          "data and outcome."),
+          "data and outcome. Inheritance edges without RestrictionCriteria, boolean attribute values spelled True / TRUE, leaf-first and shared-instance object routes and sibling definitions built from the same container objects are part of the population."),
     note="Packets are at least 2 bytes (the unrecognized-packet report reads the APID from the raw header). Criteria with missing "
          "operands are undefined (any outcome accepted). " + TRUSTED,
     technique="TLA+ state-machine spec of the container walk checked by TLC on the exhaustive bounded space; end-state conformance against the real decoder",
@@ -126,7 +129,7 @@ CHECKS["C14"] = dict(
           "cursor = packet bits; otherwise flagged and withheld when bad packets are excluded, or an exception; poisoned never clean). TLC "
           "runs this on fixed and length-dependent layouts x well-formed packets shorter / equal / longer than the layout consumes x the "
           "length values that matter (incl. negative widths); each packet is run alone through the real packet_generator in both "
-          "parse_bad_pkts modes and the observed (items, warning, exception) must match."),
+          "parse_bad_pkts modes and the observed (items, warning, exception) must match. Layouts include three-level inheritance chains ending on packet boundaries and little-endian integer tails."),
     note="After an out-of-bounds or negative-width read only 'not delivered clean' is demanded; garbage values are not compared. " + TRUSTED,
     technique="TLA+ state-machine spec of the walk with cursor accounting + classification; TLC on enumerated layouts x packets; end-state conformance against packet_generator",
     design="5 C14")
@@ -136,7 +139,7 @@ CHECKS["C11"] = dict(
           "x the 8 option combinations with invariants OutEqualsPerPacket / DoneMeansAll and action property NoCrossTalk; per-packet end "
           "states come from the Decode walk. An edge cover of the dumped graph is replayed on real generators sharing one definition "
           "(each next() compared with the model, with the single-packet parse, and warning counts), random long streams with random "
-          "schedules are validated by Trace_Generator, and the definition's XML is compared before/after. Raw packet objects handed out by the framer, by a headers-only generator and inside yielded items are each parsed on their own twice and compared with the single-packet result."),
+          "schedules are validated by Trace_Generator, and the definition's XML is compared before/after. Raw packet objects handed out by the framer, by a headers-only generator and inside yielded items are each parsed on their own twice and compared with the single-packet result. The definition carries overlapping context calibrators and a boolean-expression container so that any write to the definition during parsing shows."),
     note="Streams avoid packets whose decoding the specification does not decide (out-of-bounds reads, field errors). A segmented section composes "
          "Segments (reassembly), Decode and Generator for generators suspended in the middle of a group. " + TRUSTED,
     technique="TLA+ spec of generator interleavings, TLC exhaustive BFS; edge-cover replay (spec->code) and trace validation (code->spec)",
@@ -149,7 +152,7 @@ CHECKS["C01"] = dict(
           "untrusted steering encoder and then mutated; for every packet TLC runs the Decode.tla walk (which composes Numeric, StrBin, "
           "Calib and Criteria) with its step invariants and compares items, order, exact values, raw values, classes, views, outcome, "
           "cursor and the generator-level classification; the whole stream through packet_generator is compared with the per-packet "
-          "results. Each stream is run again on the same definition object before, while and after a generator started with another root container (reuse independence)."),
+          "results. Each stream is run again on the same definition object before, while and after a generator started with another root container (reuse independence). gendefs also generates booleans over calibrated encodings (Decode.tla decides them from the raw value)."),
     note="Bounded/random exploration of documents (seeded), not exhaustive; cases whose referenced values leave the exact small domain are "
          "undefined and accepted; character codecs trusted. The bundled / mission documents are read by an independent reader (harness/xread.py) and their recorded packets decoded (CTIM in the thorough tier only). " + TRUSTED,
     technique="TLA+ specification of the whole decode path evaluated by TLC on randomly generated documents and streams; end-state conformance against the real generator",
@@ -161,7 +164,7 @@ CHECKS["C16"] = dict(
           "every history of <= 3 loads (invariant LookupSeesOwnDoc; action properties HistoryIndependent, FaultsFail). An edge cover of "
           "the dumped graph is replayed in one process with random comment / whitespace / default-omission placement, comparing after "
           "every load the outcome, the class-level namespace state and the projection of the loaded definition with the document's "
-          "normal form; random histories of 12 loads incl. the bundled and mission documents are validated by Trace_LoaderNs. The model's second prefix is spelled in 11 ways (capitals shared with element names, digits, '-', '.', '_')."),
+          "normal form; random histories of 12 loads incl. the bundled and mission documents are validated by Trace_LoaderNs. The model's second prefix is spelled in 11 ways (capitals shared with element names, digits, '-', '.', '_'). One document contains every element kind; comments are also placed between siblings; the fault class 'no prefix passed for a prefixed document' is part of LoaderNs.tla."),
     note="Equality of definitions is judged by the harness's projection (project.py); file documents are compared with their own first "
          "load. " + TRUSTED,
     technique="TLA+ state-machine spec of the loader's namespace state, TLC exhaustive histories; edge-cover replay and trace validation of load histories",
@@ -173,7 +176,7 @@ CHECKS["C17"] = dict(
           "inheritor back-population, with objects identified by allocation index so that identity is expressible. TLC runs it on every "
           "acyclic base/nesting structure over 2-3 containers (4: sampled) in several document orders and on every single-point "
           "corruption of each, checking ReferencesShareIdentity, InheritorsExact and BrokenRejected in every state; each document is "
-          "loaded by the real from_xtce and outcome, entry lists, `is`-identity of every reference and inheritor lists are compared."),
+          "loaded by the real from_xtce and outcome, entry lists, `is`-identity of every reference and inheritor lists are compared. Corruptions include a parameter repeated verbatim."),
     note="Any exception (incl. RecursionError for cycles) counts as rejection; references made from criteria / length specifications are "
          "outside the claim. " + TRUSTED,
     technique="TLA+ state-machine spec of the loader's resolution algorithm, TLC on enumerated documents and corruptions; end-state conformance against from_xtce",
@@ -184,7 +187,7 @@ CHECKS["C15"] = dict(
           "dependency graphs of 2-4 containers x initial orders x {object-built, loaded}. The real library is run through build + 3 "
           "write/load cycles on the same graphs and on random rich definitions: W(D) = W(D) bytewise, output well-formed with every "
           "element in the definition's namespace, D unchanged by writing, cache orders stable after the first cycle, G2 = G3 = G4 "
-          "bytewise. Hand-written documents (string-encoded enumerations in every codec / byte-order spelling, time encodings) and all bundled documents go through the same byte-level cycle checks, as do files written by write_xml."),
+          "bytewise. Hand-written documents (string-encoded enumerations in every codec / byte-order spelling, time encodings) and all bundled documents go through the same byte-level cycle checks, as do files written by write_xml. Another, very different definition is written between the two writes of each definition, and every lattice point of RoundTripAttrs goes through the cycle checks."),
     note="Byte identity is observed directly on the real serializer with a fixed header date; the order in which the sets are written is "
          "not a verdict (only its stability), so a differing order is recorded as model drift. " + TRUSTED,
     technique="TLA+ model of cache ordering under write/load cycles checked by TLC; cycle replay on the real serializer with byte comparison",
@@ -195,7 +198,7 @@ CHECKS["C09"] = dict(
           "TLC checks Read(Write(v)) = v and exports every lattice point. Each point and random combinations become real definitions built "
           "from objects and loaded from XML; random rich definitions and the bundled / mission documents are added. For every definition X "
           "an independent structural projection (incl. length adjustments, calibrators, criteria, enumerations, units, descriptions, "
-          "inheritance, abstract flags) of load(write(X)) must equal that of X, and packets must decode identically before and after. Object-built definitions are also taken with equal calibrators / encodings / criteria shared as single instances, and every second case writes a second tree before the first is serialised."),
+          "inheritance, abstract flags) of load(write(X)) must equal that of X, and packets must decode identically before and after. Object-built definitions are also taken with equal calibrators / encodings / criteria shared as single instances, and every second case writes a second tree before the first is serialised. The lattice also has structural alternatives (lookup lengths with comparison lists, boolean-expression context match, OffsetFrom, sibling groups, non-linear time polynomials, odd-width byte orders, numbers needing every digit of a double); object-built definitions are also handed over leaf-first with reversed term lists."),
     note="The deciding comparison is the harness's projection and decode comparison (exploration level); the TLA+ part enumerates the "
          "attribute lattice. Base-without-criteria and zero-length binary are outside the writable subset. " + TRUSTED,
     technique="TLA+ attribute-lattice enumeration (TLC) driving projection round-trip conformance on real definitions",
@@ -207,7 +210,7 @@ CHECKS["C19"] = dict(
           "terminating generator; TLC checks EachOnce, Elided, ParseTotal and Terminates for n in 0..13 and every index -2..n+1. Every "
           "exported case is replayed through `spp describe-packets` / `spp parse --packet i` on files with distinct APIDs (rows parsed from "
           "the rendered table); empty, truncated and garbage files are run in a child process under a time limit; the repository's own "
-          "JPSS listing is checked for first-five / ellipsis / last-five."),
+          "JPSS listing is checked for first-five / ellipsis / last-five. Tables and messages are read style-agnostically; files with unrecognised packets, files longer than the display limits and the global switches -q / -v / --log-level are covered."),
     note="Rows are recognised by their seven numeric cells; termination of the real CLI is observed under a time limit. " + TRUSTED,
     technique="TLA+ spec of the listing / index rules checked by TLC; exhaustive table replay through the click runner and child processes",
     design="5 C19")
@@ -219,7 +222,7 @@ CHECKS["C20"] = dict(
           "type) x all step sequences up to length 3 (RawRule, Preserved). Every exported case is executed on the real classes (raw rule, "
           "type, value and raw value after every step) and the built-in operations (comparison, hashing, dict keys, arithmetic, "
           "formatting, conversions, methods) are compared with the plain built-in; parsed packets from real generator runs are copied / "
-          "pickled and compared (items, order, raw values, raw bytes, cursor, header view)."),
+          "pickled and compared (items, order, raw values, raw bytes, cursor, header view). Two parsed values are compared with each other like their plain values; values re-wrapped from parsed values and whole packets (one per stream, vacuity-guarded) are covered."),
     note="The built-in side of every comparison is Python itself; hash of NaN is identity-based and not compared. " + TRUSTED,
     technique="TLA+ state model of value objects and copy steps enumerated by TLC; every exported case replayed on the real classes",
     design="5 C20")
@@ -231,7 +234,7 @@ CHECKS["C18"] = dict(
           "replayed through create_dataset on real files (rows identified by a packet id field). At value level, per-APID layouts cover "
           "integers around every dtype threshold (7..72 bits, signed and unsigned), IEEE 16/32/64 and 1750A floats incl. specials, "
           "enumerations, booleans, calibrated and time values, strings and blobs with NULs and non-ASCII text, in derived and raw mode "
-          "over three files; every cell is compared with the item the packet generator yields for that packet. create_dataset is called in every documented shape (list / tuple / iterator / single path of str or Path; definition object or document path); binary fields of 4, 9, 12, 20 bits and a referenced length are part of the value layout."),
+          "over three files; every cell is compared with the item the packet generator yields for that packet. create_dataset is called in every documented shape (list / tuple / iterator / single path of str or Path; definition object or document path); binary fields of 4, 9, 12, 20 bits and a referenced length are part of the value layout. Datasets are built for three definitions sharing all names, keyword options are checked to reach the generator, and a field set is listed in two orders."),
     note="Two known findings (trailing NULs of 'S'/'U' dtype cells) are listed in known_findings.json and reported as KNOWN-FINDING; every "
          "other cell difference is a violation. The generator's own values are decided by C01/C04/C07/C08. " + TRUSTED,
     technique="TLA+ spec of per-APID accumulation checked by TLC and replayed through create_dataset; cell-by-cell comparison with the packet generator",
